@@ -34,8 +34,9 @@ CHECKS = {
             'clean batch is evidence, not proof',
             'trusts the Sim* primitives to model queue.Queue/threading '
             'semantics; pre-emption only at primitives, socket I/O, callback '
-            'entry/exit and (fine mode) _listener.py line boundaries; TLS not '
-            'simulated',
+            'entry/exit and (fine mode) _listener.py line boundaries; TLS is '
+            'a stub (named certificates, plain simulated socket), so HTTPS '
+            'covers the two-server start/stop logic only',
             'deterministic simulation: seeded thread scheduler + fault '
             'injection, history oracle'),
     'C17': ('listener', 'exploration',
@@ -61,7 +62,11 @@ CHECKS = {
             'response element choice) is a stub written from DSP0200; '
             'normalisations n1 (None == DSP0201 default), n2 (server host '
             'where HOST is mandatory), n3 (SCOPE ANY) are applied; objects '
-            'are sent with explicit qualifier flavors; no faults injected',
+            'are sent with explicit qualifier flavors; 25 % of the runs use '
+            'a separate fault configuration (the reply to one request is '
+            'lost after execution: the call must raise ConnectionError / '
+            'TimeoutError and the request must reach the server exactly '
+            'once); operations are repeated with the same argument objects',
             'deterministic simulation: simulated transport + simulated '
             'server, differential oracle against a reference execution'),
     'C02': ('wire', 'exploration',
